@@ -84,7 +84,7 @@ def run(ctx):
     quick = ctx.quick()
     rng = ctx.rng
     cases, meta = [], []
-    for i in range(400 if quick else 8000):
+    for i in range(400 if quick else 40000):
         if i % 4 == 0:
             src, fsrc, items = template_case(rng)
             texts = [rng.choice(["a 12 b 345", "<12> <3>", "x1y22", "7", "ab", "<1>a<22>"]) for _ in range(3)] + [genprog.gen_text(rng, "a1<>", 8)]
